@@ -123,6 +123,8 @@ type Parser struct {
 	contextStack []ContextType
 	// Current expression precedence during parsing
 	currentExpressionPrecedence int
+	// functionBodyNext is set by the function parsers right before they parse the body block
+	functionBodyNext bool
 
 	// tolerantMode enables permissive parsing that continues on syntax errors
 	// Useful for language servers, formatters, and analysis tools
